@@ -21,6 +21,11 @@ class ExprArrayProductModel(ExprDynamicModel):
 #        return ret        
         return 64
         
+    def expr(self):
+        # Not cached here: the element chain follows the list's
+        # current content (the list caches it per size)
+        return self.arr.get_product_expr()
+
     def build_expr(self):
         return self.arr.get_product_expr()
     
